@@ -14,7 +14,7 @@ Why(e) ==
   ELSE ""
 \* drift: the binary resolves differently from the implementation-shaped model (report, no verdict)
 Drifts(e) == LET q == Plc(e) IN
-             e.values[1] # ImplValue(q, SelectSeq(<<"dh", "dsf">>, LAMBDA f : f \in q.flagsMain))
+             e.values[1] # ImplValue(q, SelectSeq(FlagOrder, LAMBDA f : f \in q.flagsMain))
 Init == l = 1 /\ failed = <<>> /\ drift = <<>>
 Next == /\ l <= Len(Rec)
         /\ l' = l + 1
